@@ -112,6 +112,9 @@ UNITS = {
     "Dict": dict(
         file="@harness/gen_dict.c",
         funcs=[dict(name="gen_REVERSE_BYTE"), dict(name="so_dummykey"), dict(name="so_regularkey"), dict(name="GET_PARENT"),
+               dict(name="qt_hash_put", as_="qt_hash_put_grow", start=r"^size_t csize = h->size", stop=r"^return ret->value",
+                    outputs=["h_size"], globals=["hard_max_buckets"], cas_calls=["__sync_val_compare_and_swap_8", "__sync_val_compare_and_swap"],
+                    oracles={"__sync_fetch_and_add_8": ("fetch_add", [1]), "__sync_fetch_and_add": ("fetch_add", [1])}),
                dict(name="qt_hash_put", as_="qt_hash_put_index", start=r"^HASH_KEY", stop=r"^assert\(node\)|^node->hashed_key",
                     outputs=["lkey", "bucket"])]),
     "Swsr": dict(
@@ -133,6 +136,25 @@ UNITS = {
                     # the three float thresholds (entries * 0.65f etc.) are outside the integer subset: not tracked here,
                     # tied by the dynamic correspondence of lib/verif/props/_hashmap.py only
                     ignore=["ret_grow_size", "ret_tidy_up_size", "ret_shrink_size"])]),
+    "Sinc": dict(
+        file="src/sincs/donecount.c",
+        funcs=[dict(name="qt_sinc_init", as_="sinc_init_sizes", inside=[r"else:^if \(sizeof_value == 0\)"], stop=r"^qt_sinc_reduction_t",
+                    outputs=["sizeof_shep_value_part", "num_lines"], globals=["num_wps", "num_sheps", "cacheline"]),
+               dict(name="qt_sinc_init", as_="sinc_init_shep_offset", inside=[r"else:^if \(sizeof_value == 0\)", r"^for \(size_t s = 0"],
+                    stop=r"^for \(size_t w = 0", outputs=["shep_offset"]),
+               dict(name="qt_sinc_init", as_="sinc_init_worker_offset",
+                    inside=[r"else:^if \(sizeof_value == 0\)", r"^for \(size_t s = 0", r"^for \(size_t w = 0"],
+                    stop=r"^memcpy", outputs=["worker_offset"]),
+               dict(name="qt_sinc_reset", as_="sinc_reset_shep_offset", inside=[r"^if \(rdata\)|^if \(sinc->rdata\)|^if \(NULL != rdata\)", r"^for \(size_t s = 0"],
+                    stop=r"^for \(size_t w = 0", outputs=["shep_offset"]),
+               dict(name="qt_sinc_internal_collate", as_="sinc_collate_shep_offset", inside=[r"^if \(sinc->rdata\)", r"^for \(qthread_shepherd_id_t s = 0"],
+                    stop=r"^for \(size_t w = 0", outputs=["shep_offset"]),
+               dict(name="qt_sinc_submit", as_="sinc_submit_slot", inside=[r"^if \(value\)", r"^if \(NULL != value\)"],
+                    stop=r"^rdata->op", outputs=["values"]),
+               dict(name="qt_sinc_tmpdata", as_="sinc_tmpdata", oracles={"qthread_shep": [], "qthread_readstate": []})]),
+    "Gcd": dict(
+        file="src/mpool.c",      # a translation unit that includes include/qt_gcd.h (the functions are static inline there)
+        funcs=[dict(name="qt_gcd"), dict(name="qt_lcm")]),
     "Ident": dict(
         file="src/qthread.c",
         funcs=[dict(name="qthread_id", skip_stmts=[r"^qthread_debug"],
@@ -870,6 +892,12 @@ class Kernel:
                 lv(inner(n)[0])
             if k == "UnaryOperator" and n["opcode"] in ("++", "--"):
                 lv(inner(n)[0])
+            if k == "CallExpr" and self.callee(n) in self.spec.get("cas_calls", []) and len(inner(n)) > 1:
+                a0 = inner(n)[1]
+                while a0.get("kind") in ("ParenExpr", "ImplicitCastExpr", "CStyleCastExpr"):
+                    a0 = inner(a0)[0]
+                if a0.get("kind") == "UnaryOperator" and a0.get("opcode") == "&":
+                    lv(inner(a0)[0])
             for c in inner(n):
                 walk(c)
         for n in nodes:
@@ -1130,6 +1158,25 @@ class Kernel:
             name = self.callee(n)
             if name in self.spec.get("trap_calls", []) + COMMON_TRAPS:
                 return ["None (* %s *)" % name]
+            if name in self.spec.get("cas_calls", []):
+                # compare-and-swap on a tracked location, as a statement:  v := if v = old then new else v
+                # (the sequential meaning of the atomic operation; the returned value is discarded by the source)
+                a0 = inner(n)[1]
+                while a0.get("kind") in ("ParenExpr", "ImplicitCastExpr", "CStyleCastExpr"):
+                    a0 = inner(a0)[0]
+                if not (a0.get("kind") == "UnaryOperator" and a0.get("opcode") == "&"):
+                    raise CTransError("%s: first argument of the CAS is not &lvalue" % self.where(n0))
+                lv = self.lvalue(inner(a0)[0], env)
+                if lv[0] != "var":
+                    raise CTransError("%s: CAS on an array cell" % self.where(n0))
+                v = lv[1]
+
+                def mk(e_):
+                    self.read_var(v, e_, n)
+                    old_ = self.conv(self.expr(inner(n)[2], e_), v.ty)
+                    new_ = self.conv(self.expr(inner(n)[3], e_), v.ty)
+                    return E("if %s =? %s then %s else %s" % (v.name, old_.zpar(), new_.zpar(), v.name), v.ty, guards=old_.guards + new_.guards)
+                return self.assign(v, None, mk, env, cont, n0)
             if name in self.spec.get("skip_calls", []):
                 if not all(self.effect_free(a) for a in inner(n)[1:]):
                     raise CTransError("%s: argument with side effects in a skipped call" % self.where(n0))
@@ -1577,6 +1624,9 @@ class Kernel:
             else:
                 self.pre_locals.add(("v", dcl["id"]))
         for pat in self.spec.get("inside", []):
+            want_else = pat.startswith("else:")
+            if want_else:
+                pat = pat[5:]
             texts = [" ".join(self.text_of(s_).split()) for s_ in stmts]
             hits = [i for i, t in enumerate(texts) if re.search(pat, t)]
             if len(hits) != 1:
@@ -1585,7 +1635,9 @@ class Kernel:
             kd = st.get("kind")
             sub = [c for c in st.get("inner", []) if isinstance(c, dict) and c]
             if kd == "IfStmt":
-                nb = sub[1]
+                if want_else and len(sub) < 3:
+                    raise CTransError("%s: inside pattern else:%r selects an if without else" % (self.cname, pat))
+                nb = sub[2] if want_else else sub[1]
             elif kd in ("WhileStmt", "ForStmt"):
                 nb = sub[-1]
             elif kd == "CompoundStmt":
